@@ -11,6 +11,7 @@ import (
 // order-sensitive unless goa sorts. All keys are documented goa Meta keys
 // whose values do not change the shape of the generated Go code.
 func enrich(r *vc.Rand, s *spec.Spec) {
+	examples(s)
 	add := func(m map[string][]string, kv map[string][]string) map[string][]string {
 		if m == nil {
 			m = map[string][]string{}
@@ -63,4 +64,41 @@ func enrich(r *vc.Rand, s *spec.Spec) {
 	if tags {
 		s.AddFeature("meta-multi-struct-tags")
 	}
+}
+
+// examples adds a service whose payload and result carry one attribute per way
+// goa computes an example value (every format, pattern, enum, bounds, lengths
+// on strings/arrays/maps, nested types): the OpenAPI documents and the CLI help
+// render those examples, so they must be the same in every generation.
+func examples(s *spec.Spec) {
+	if s.Type("C09Examples") != nil {
+		return
+	}
+	str := func() *spec.Type { return &spec.Type{Kind: spec.String} }
+	ip := func(i int) *int { return &i }
+	fp := func(f float64) *float64 { return &f }
+	def := &spec.Type{Kind: spec.Object}
+	for _, f := range []string{"date", "date-time", "uuid", "email", "hostname", "ipv4", "ipv6", "ip", "uri", "mac", "cidr", "regexp", "json", "rfc1123"} {
+		def.Attrs = append(def.Attrs, &spec.Attr{Name: "fmt_" + spec.Norm(f), Type: str(), Val: &spec.Val{Format: f}})
+	}
+	def.Attrs = append(def.Attrs,
+		&spec.Attr{Name: "pat", Type: str(), Val: &spec.Val{Pattern: `^[a-z]{3,8}[0-9]?$`}},
+		&spec.Attr{Name: "len", Type: str(), Val: &spec.Val{MinLen: ip(3), MaxLen: ip(40)}},
+		&spec.Attr{Name: "bounded", Type: &spec.Type{Kind: spec.Int}, Val: &spec.Val{Min: fp(-5), Max: fp(500)}},
+		&spec.Attr{Name: "ratio", Type: &spec.Type{Kind: spec.Float64}, Val: &spec.Val{Min: fp(0), Max: fp(1)}},
+		&spec.Attr{Name: "raw", Type: &spec.Type{Kind: spec.Bytes}},
+		&spec.Attr{Name: "anything", Type: &spec.Type{Kind: spec.Any}},
+		&spec.Attr{Name: "ids", Type: &spec.Type{Kind: spec.Array, Elem: &spec.Attr{Type: str(), Val: &spec.Val{Format: "uuid"}}}, Val: &spec.Val{MinLen: ip(1), MaxLen: ip(6)}},
+		&spec.Attr{Name: "scores", Type: &spec.Type{Kind: spec.Map, Key: &spec.Attr{Type: str()}, Elem: &spec.Attr{Type: &spec.Type{Kind: spec.Float64}}}, Val: &spec.Val{MinLen: ip(1), MaxLen: ip(5)}},
+		&spec.Attr{Name: "flags", Type: &spec.Type{Kind: spec.Map, Key: &spec.Attr{Type: &spec.Type{Kind: spec.Int}}, Elem: &spec.Attr{Type: &spec.Type{Kind: spec.Boolean}}}},
+	)
+	s.Types = append(s.Types, &spec.UserType{Name: "C09Examples", Kind: "type", Def: def})
+	nosec := len(s.API.Security) > 0
+	ref := func() *spec.Attr { return &spec.Attr{Type: &spec.Type{Kind: spec.Ref, Ref: "C09Examples"}} }
+	s.Services = append(s.Services, &spec.Service{Name: "c09examples", BasePath: "/c09examples", Methods: []*spec.Method{
+		{Name: "show", NoSec: nosec, Payload: ref(), Result: ref(), HTTP: &spec.HTTP{Routes: []spec.Route{{Verb: "POST", Path: "/show"}}}},
+		{Name: "find", NoSec: nosec, Payload: ref(), Result: ref(), HTTP: &spec.HTTP{Routes: []spec.Route{{Verb: "GET", Path: "/find/{fmt_uuid}"}},
+			Path: []spec.Loc{{Attr: "fmt_uuid"}}, Query: []spec.Loc{{Attr: "fmt_date"}, {Attr: "ids"}, {Attr: "pat"}}, Headers: []spec.Loc{{Attr: "fmt_email", Wire: "X-Email"}}, Body: "empty"}},
+	}})
+	s.AddFeature("example-bearing-attributes")
 }
